@@ -88,6 +88,39 @@ Definition tucker_new (core : tensor F) (fs : list (mat F)) : res tucker_obj :=
    (operands on which NumPy broadcasting would change the core's shape are outside the model) *)
 Definition tucker_normalize_api (tape : list (list F)) (core : tensor F) (fs : list (mat F)) : res tucker_obj :=
   let '(c', fs') := tucker_normalize Op tape core fs in tucker_new c' fs'.
+(* tucker_normalize on ANY (core, factors), NumPy broadcasting included (round 6).  Iteration i multiplies the CURRENT core by the
+   scales of factor i reshaped to (1,)*i + (-1,) + (1,)*(ndim(core) - i - 1) -- a negative repeat count is the empty tuple, so for
+   i >= ndim(core) the operand has i + 1 axes and the core gains leading axes.  The two shapes are right-aligned; a pair of
+   sizes must be equal or contain a 1 (which is stretched), otherwise NumPy raises.  The answer then goes through TuckerTensor(...).
+   On a valid Tucker tensor nothing is stretched and this is tucker_normalize_api (C04_tucker_bc_step; compared on every run). *)
+Definition bdim (a b : nat) : option nat :=
+  if Nat.eqb a b then Some a else if Nat.eqb a 1 then Some b else if Nat.eqb b 1 then Some a else None.
+Fixpoint bshape (a b : list nat) : option (list nat) :=
+  match a, b with
+  | [], [] => Some []
+  | x :: a', y :: b' => match bdim x y, bshape a' b' with Some d, Some r => Some (d :: r) | _, _ => None end
+  | _, _ => None
+  end.
+Definition bproj (sh idx : list nat) : list nat := map (fun p => if Nat.eqb (fst p) 1 then 0 else snd p) (combine sh idx).
+Definition tk_norm_step (i : nat) (sc : list F) (core : tensor F) : res (tensor F) :=
+  let d := length (shape core) in
+  let S := if i <? d then repeat 1 i ++ [length sc] ++ repeat 1 (d - i - 1) else repeat 1 i ++ [length sc] in
+  let pad := length S - d in
+  let csh := repeat 1 pad ++ shape core in
+  match bshape csh S with
+  | None => Err
+  | Some rsh => Ok (tabulate rsh (fun idx => fmul Op (tget Op core (skipn pad (bproj csh idx))) (vget Op sc (nth i (bproj S idx) 0))))
+  end.
+Fixpoint tk_norm_loop (i : nat) (tape : list (list F)) (core : tensor F) : res (tensor F) :=
+  match tape with
+  | [] => Ok core
+  | sc :: rest => rbind (tk_norm_step i sc core) (tk_norm_loop (S i) rest)
+  end.
+Definition tucker_normalize_bc (tape : list (list F)) (core : tensor F) (fs : list (mat F)) : res tucker_obj :=
+  if Nat.eqb (length tape) (length fs) && wfb core then
+    rbind (tk_norm_loop 0 tape core) (fun c' => tucker_new c' (div_all Op fs tape))
+  else Err.
+
 (* tucker_mode_dot: operand validated (inside tucker_mode_dot of Model/Transforms.v), answer validated by TuckerTensor(...) *)
 Definition tucker_mode_dot_api (core : tensor F) (fs : list (mat F)) (x : operand (F:=F)) (mode : Z) (keep_dim : bool) : res tucker_obj :=
   match tucker_mode_dot_z Op core fs x mode keep_dim with
